@@ -6,7 +6,7 @@ CXX ?= g++
 SAN ?= -fsanitize=address,bounds,null,return,unreachable,vla-bound,integer-divide-by-zero,pointer-overflow,builtin -fno-sanitize-recover=all
 OPT ?= -O1
 INCS := $(foreach d,common theta tuple hll cpc kll req quantiles fi count sampling tdigest filters density,-I$(REPO)/$(d)/include)
-CXXFLAGS := -std=c++17 $(OPT) -g1 $(SAN) -DDATASKETCHES_VERIF $(INCS) -fno-omit-frame-pointer -Wall -Wno-unused-function -Wno-unused-variable
+CXXFLAGS := -std=c++14 $(OPT) -g1 $(SAN) -DDATASKETCHES_VERIF $(INCS) -fno-omit-frame-pointer -Wall -Wno-unused-function -Wno-unused-variable
 SIMH := $(wildcard sim/*.hpp) $(wildcard $(REPO)/*/include/*.hpp) $(wildcard $(REPO)/*/include/*.h)
 
 BINS := store_d store_q store_m agg_theta agg_hll agg_cpc quant addagg shm heap_d heap_q heap_m agg_tuple skew_d skew_q skew_m base_d base_q base_m
@@ -19,7 +19,7 @@ $(BUILD)/store_m: worlds/store.cpp $(SIMH) Makefile ; @mkdir -p $(BUILD) && $(CX
 
 BASE := baseline
 INCS_BASE := $(foreach d,common theta tuple hll cpc kll req quantiles fi count sampling tdigest filters density,-I$(BASE)/$(d)/include)
-CXXFLAGS_BASE := -std=c++17 $(OPT) -g1 $(SAN) -DDATASKETCHES_VERIF -DDSIM_BASELINE $(INCS_BASE) -fno-omit-frame-pointer -w
+CXXFLAGS_BASE := -std=c++14 $(OPT) -g1 $(SAN) -DDATASKETCHES_VERIF -DDSIM_BASELINE $(INCS_BASE) -fno-omit-frame-pointer -w
 BASEH := $(wildcard sim/*.hpp) $(wildcard $(BASE)/*/include/*.hpp) $(wildcard $(BASE)/*/include/*.h)
 $(BUILD)/skew_d: worlds/skew.cpp $(SIMH) Makefile ; @mkdir -p $(BUILD) && $(CXX) $(CXXFLAGS) -DGROUP_DISTINCT $< -o $@
 $(BUILD)/skew_q: worlds/skew.cpp $(SIMH) Makefile ; @mkdir -p $(BUILD) && $(CXX) $(CXXFLAGS) -DGROUP_QUANT $< -o $@
